@@ -433,10 +433,18 @@ def sc_hard_limit(params, obs, save):
         siblings.append(['imap', pool.imap(_star_value, [['isib.%d' % i, (eff or 1.0) * 0.7]
                                                          for i in range(2)])])
     t_sub = time.monotonic()
+    follower = None
+    if params.get('slow_cb'):
+        # the job finishes in time, but its result callback is still running
+        # in the result handler when the limit's instant passes
+        kw['callback'] = lambda v, nap=params['slow_cb']: time.sleep(nap)
     h = pool.apply_async(fn, ('victim', dur), accept_callback=_stamp_cb(cbs, 'accept'),
                          timeout_callback=_stamp_cb(cbs, 'timeout'),
                          lost_worker_timeout=2.0, **kw)
-    _wait_for(lambda: h.ready(), dur + (eff or 0) + 25)
+    if params.get('slow_cb'):
+        follower = pool.apply_async(tasks.t_value, ('follower', params['slow_cb'] + 1.0),
+                                    timeout=60)
+    _wait_for(lambda: h.ready(), dur + (eff or 0) + 25 + (params.get('slow_cb') or 0))
     t_res = time.monotonic()
     time.sleep(0.3)           # callbacks run right after the outcome is set
     obs['resolved'] = h.ready()
@@ -454,6 +462,9 @@ def sc_hard_limit(params, obs, save):
     save()
     obs['siblings'] = [[k, _collect({'kind': k}, s, 20) if k != 'map'
                         else _outcome(lambda s=s: s.get(30))] for k, s in siblings]
+    if follower is not None:
+        obs['follower'] = _outcome(lambda: follower.get(params['slow_cb'] + 30))
+        obs['victim_state_end'] = pid_exists(victim) if victim else None
     probes = [pool.apply_async(tasks.t_pid, ('probe.%d' % i, 0.05)) for i in range(params.get('probes', 3))]
     obs['probes'] = [_outcome(lambda o=o: o.get(20)) for o in probes]
     obs['worst_stall'] = hb.stop()
@@ -472,6 +483,10 @@ def sc_soft_limit(params, obs, save):
         kw['soft_timeout'] = params['job_soft']
     if params.get('job_hard') is not None:
         kw['timeout'] = params['job_hard']
+    if params.get('slow_cb'):
+        # the job finishes in time, but its result callback is still running
+        # in the result handler when the soft limit's instant passes
+        kw['callback'] = lambda v, nap=params['slow_cb']: time.sleep(nap)
     h = pool.apply_async(tasks.t_catch_soft, ('victim', params['dur'], params.get('catch', True)),
                          accept_callback=_stamp_cb(cbs, 'accept'),
                          timeout_callback=_stamp_cb(cbs, 'timeout'), **kw)
@@ -484,7 +499,7 @@ def sc_soft_limit(params, obs, save):
         _wait_for(lambda: h.accepted(), 10)
         pool.close()
         threading.Thread(target=pool.join, daemon=True).start()
-    _wait_for(lambda: h.ready(), params['dur'] + 25)
+    _wait_for(lambda: h.ready(), params['dur'] + 25 + (params.get('slow_cb') or 0))
     obs['outcome'] = _outcome(lambda: h.get(0)) if h.ready() else ['unresolved']
     _wait_for(lambda: h2.ready(), params.get('next_dur', 1.5) + 25)
     obs['next_outcome'] = _outcome(lambda: h2.get(0)) if h2.ready() else ['unresolved']
@@ -829,5 +844,81 @@ def sc_grow_shrink(params, obs, save):
     obs['after'] = [_outcome(lambda: pool.apply_async(tasks.t_pid, ('s', 0.05)).get(20))
                     for _ in range(4)]
     obs['ups'] = len(up)
+    save()
+    pool.terminate()
+
+
+def sc_ack_window(params, obs, save):
+    """the result handler is descheduled at one line of ApplyResult._ack (a
+    LINE event of sys.monitoring naps there) while another pool thread - the
+    timeout scanner, or the supervisor after the worker was killed - resolves
+    the same job: the accept callback must still come first"""
+    import sys
+    from billiard.pool import ApplyResult
+    up = []
+    params = dict(params, enable_timeouts=True, nproc=1)
+    pool = _mkpool(params, up)
+    cbs = []
+    lk = threading.Lock()
+
+    def stamp(which):
+        def cb(*a, **kw):
+            with lk:
+                cbs.append([which, time.monotonic(), exc_name(a[0]) if which == 'err' and a else None])
+        return cb
+    # warm the worker up first: only the victim's _ack is slowed down
+    pool.apply_async(tasks.t_value, ('warm', 0)).get(20)
+    mon = sys.monitoring
+    tool = mon.PROFILER_ID
+    mon.use_tool_id(tool, 'vmon-ackwin')
+    code = ApplyResult._ack.__code__
+    state = {'n': 0, 'napped': None}
+    napping = threading.Event()
+
+    def on_line(c, line):
+        if c is not code:
+            return mon.DISABLE
+        state['n'] += 1
+        if state['n'] == params['line']:
+            state['napped'] = line - code.co_firstlineno
+            napping.set()
+            time.sleep(params['nap'])
+    mon.register_callback(tool, mon.events.LINE, on_line)
+    mon.set_local_events(tool, code, mon.events.LINE)
+    resolver = params['resolver']
+    kw = {'timeout': 0.3} if resolver == 'hard' else {}
+    try:
+        h = pool.apply_async(tasks.t_value, ('victim', 30), accept_callback=stamp('accept'),
+                             callback=stamp('ok'), error_callback=stamp('err'),
+                             lost_worker_timeout=0.5, **kw)
+        napping.wait(20)
+        obs['nap_reached'] = napping.is_set()
+        obs['nap_at_line'] = state['napped']
+        if resolver != 'hard':
+            # the owner is recorded under the job's lock: from then on the
+            # supervisor can find the job
+            # (killing the worker before that is the ACK-after-reap history,
+            # which is not what this scenario is about)
+            t0 = time.monotonic()
+            while time.monotonic() < t0 + params['nap'] + 10 and not h._worker_pid:
+                time.sleep(0.01)
+            obs['owner_seen_during_nap'] = time.monotonic() - t0 < params['nap'] * 0.5
+            if resolver == 'termjob':
+                pool.terminate_job(up[0], signal.SIGTERM)
+            else:
+                os.kill(up[0], signal.SIGKILL)
+        _wait_for(lambda: h.ready(), 25)
+        time.sleep(params['nap'] + 0.5)
+    finally:
+        mon.set_local_events(tool, code, 0)
+        mon.register_callback(tool, mon.events.LINE, None)
+        mon.free_tool_id(tool)
+    obs['ack_lines_seen'] = state['n']
+    obs['outcome'] = _outcome(lambda: h.get(0)) if h.ready() else ['unresolved']
+    with lk:
+        obs['cbs'] = list(cbs)
+    save()
+    probe = pool.apply_async(tasks.t_pid, ('probe', 0.05))
+    obs['probe'] = _outcome(lambda: probe.get(20))
     save()
     pool.terminate()
